@@ -596,6 +596,17 @@ def _fixup_name_table(fn: ast.FunctionDef) -> dict:
     return {'prefixes': prefixes, 'rules': rules}
 
 
+def _snapshot_loop_var(n: ast.For) -> str | None:
+    """`for v in instances` or `for i, v in enumerate(instances[, start])` (the same elements, paired with a number): v."""
+    it, tg = n.iter, n.target
+    if isinstance(it, ast.Call) and isinstance(it.func, ast.Name) and it.func.id == 'enumerate' and len(it.args) in (1, 2) \
+            and all(k.arg == 'start' for k in it.keywords) and isinstance(tg, ast.Tuple) and len(tg.elts) == 2:
+        it, tg = it.args[0], tg.elts[1]
+    if ast.unparse(it) == 'instances' and isinstance(tg, ast.Name):
+        return tg.id
+    return None
+
+
 def _collapse_all_shape(fn: ast.FunctionDef, module: ast.Module) -> dict:
     params = [a.arg for a in fn.args.args]
     loops = [s for s in fn.body if isinstance(s, ast.For)]
@@ -613,11 +624,11 @@ def _collapse_all_shape(fn: ast.FunctionDef, module: ast.Module) -> dict:
     ret_empty = len(body) > 1 and isinstance(body[1], ast.If) and ast.unparse(body[1].test) == 'not instances' \
         and len(body[1].body) == 1 and isinstance(body[1].body[0], ast.Return) and body[1].body[0].value is None
     inner = [s for s in body if isinstance(s, ast.For)]
-    inner_ok = len(inner) == 1 and ast.unparse(inner[0].iter) == 'instances' and isinstance(inner[0].target, ast.Name)
+    inner_ok = len(inner) == 1 and _snapshot_loop_var(inner[0]) is not None
     removes = collapses = False
     no_escape = True
     if inner_ok:
-        var = inner[0].target.id
+        var = _snapshot_loop_var(inner[0])
         for n in ast.walk(inner[0]):
             if isinstance(n, (ast.Break, ast.Continue)):
                 no_escape = False
@@ -642,6 +653,65 @@ def _collapse_all_shape(fn: ast.FunctionDef, module: ast.Module) -> dict:
     return dict(bound_is_param=bound_ok, bound_name=bound_name, lists_instances=lists_instances, returns_when_empty=ret_empty,
                 inner_loop_over_snapshot=inner_ok, removes_each=removes, collapses_each=collapses, no_break_continue=no_escape,
                 raises_after_loop=raises, recur_count_consulted=consulted)
+
+
+def _auto_name_counter(fn: ast.FunctionDef) -> dict:
+    """Round 6 (SM/C17AutoNames.v): what collapse_all does to the variable the automatic instance names are numbered from.
+    The variable is the single name formatted into `inst.name = f'...{c}'` under `if not inst.name`; events in source order:
+    `c = <int>` before the loop over the passes (CInitBeforeLoop), `c += <positive int>` directly before that assignment
+    (CIncrAtUse), any other binding of `c` inside the loop - assignment, loop / comprehension / with target, walrus, del -
+    (CStoreInLoop).  Anything not recognised fails closed as CStoreInLoop."""
+    loops = [s for s in fn.body if isinstance(s, ast.For)]
+    if len(loops) != 1:
+        return {'events': ['CStoreInLoop'], 'variable': None, 'why': 'no single loop over the passes'}
+    lp = loops[0]
+    uses = []
+    for n in ast.walk(lp):
+        if isinstance(n, ast.If) and ast.unparse(n.test) == 'not inst.name':
+            for k, st in enumerate(n.body):
+                if isinstance(st, ast.Assign) and len(st.targets) == 1 and ast.unparse(st.targets[0]) == 'inst.name':
+                    uses.append((n, k, st))
+    if len(uses) != 1:
+        return {'events': ['CStoreInLoop'], 'variable': None, 'why': f'{len(uses)} assignments of an automatic name found'}
+    if_node, k, st = uses[0]
+    val = st.value
+    names = sorted({x.id for x in ast.walk(val) if isinstance(x, ast.Name)})
+    formatted = [x for x in ast.walk(val) if isinstance(x, ast.FormattedValue)]
+    if not (isinstance(val, ast.JoinedStr) and len(names) == 1 and len(formatted) == 1 and isinstance(formatted[0].value, ast.Name)):
+        return {'events': ['CStoreInLoop'], 'variable': None, 'why': f'automatic name `{ast.unparse(val)}` is not an f-string of one variable'}
+    c = names[0]
+    events = []
+    idx = fn.body.index(lp)
+    for s0 in fn.body[:idx]:
+        for n in ast.walk(s0):
+            if isinstance(n, ast.Name) and n.id == c and isinstance(n.ctx, (ast.Store, ast.Del)):
+                ok = isinstance(s0, ast.Assign) and len(s0.targets) == 1 and s0.targets[0] is n and isinstance(s0.value, ast.Constant) \
+                    and type(s0.value.value) is int
+                events.append('CInitBeforeLoop' if ok else 'CStoreInLoop')
+    if c in [a.arg for a in fn.args.args + fn.args.kwonlyargs]:
+        events.append('CStoreInLoop')
+    good_targets = set()
+    if k > 0:
+        prev = if_node.body[k - 1]
+        if isinstance(prev, ast.AugAssign) and isinstance(prev.op, ast.Add) and isinstance(prev.target, ast.Name) and prev.target.id == c \
+                and isinstance(prev.value, ast.Constant) and type(prev.value.value) is int and prev.value.value > 0:
+            good_targets.add(id(prev.target))
+    why = []
+    for n in ast.walk(lp):
+        if isinstance(n, ast.Name) and n.id == c and isinstance(n.ctx, (ast.Store, ast.Del)):
+            if id(n) in good_targets:
+                events.append('CIncrAtUse')
+            else:
+                events.append('CStoreInLoop')
+                why.append(f'`{c}` bound at line {n.lineno} inside the loop over the passes')
+        elif isinstance(n, (ast.Global, ast.Nonlocal)) and c in n.names:
+            events.append('CStoreInLoop')
+    for n in ast.walk(fn):
+        if isinstance(n, (ast.FunctionDef, ast.Lambda, ast.AsyncFunctionDef)) and n is not fn:
+            if any(isinstance(x, ast.Name) and x.id == c for x in ast.walk(n)):
+                events.append('CStoreInLoop')
+                why.append(f'`{c}` used in a nested function')
+    return {'events': events, 'variable': c, 'why': '; '.join(why)}
 
 
 # ---------------------------------------------------------------------------------------------- cycle repair (round 4)
@@ -833,7 +903,7 @@ def _cycle_repair(itree: ast.Module) -> dict:
 
     # ---- collapse_all: if inst.filename in inst.parents: raise RecursionError  (before collapse_one is reached)
     defs_all = _single_defs(call)
-    inner = [n for n in ast.walk(call) if isinstance(n, ast.For) and ast.unparse(n.iter) == 'instances' and isinstance(n.target, ast.Name)]
+    inner = [n for n in ast.walk(call) if isinstance(n, ast.For) and _snapshot_loop_var(n) is not None]
     check = False
     why2 = 'collapse_all does not look at .parents'
     mentions = _mentions_attr(call, FIELD)
@@ -841,7 +911,7 @@ def _cycle_repair(itree: ast.Module) -> dict:
         if len(inner) != 1:
             raise TranslateError('collapse_all: `.parents` is used but the loop over the snapshot was not found')
         body = inner[0].body
-        var = inner[0].target.id
+        var = _snapshot_loop_var(inner[0])
         recognised: list[tuple[int, ast.If, bool]] = []      # (index in body, statement, raise is in the orelse branch)
         for i, st in enumerate(body):
             if not isinstance(st, ast.If):
@@ -3045,6 +3115,11 @@ def translate() -> tuple[str, dict]:
         if isinstance(val, bool):
             E.lines.append(f'Definition g_collapse_all_{k} : bool := {"true" if val else "false"}.')
 
+    # round 6: the counter of the automatic instance names (SM/C17AutoNames.v)
+    auto = _auto_name_counter(_find_func(itree, 'collapse_all'))
+    side['auto_name_counter'] = auto
+    E.lines.append(f'Definition g_collapse_all_auto_counter : list cevent := [{"; ".join(auto["events"])}].')
+
     # round 4: the ancestry check that stops instance cycles (SM/C17Rounds.v loop2)
     cyc = _cycle_repair(itree)
     side['cycle_repair'] = cyc
@@ -3107,7 +3182,7 @@ def translate() -> tuple[str, dict]:
                        'fixup_key': ast_digest(fk), 'substitute': sc['digest']}
     head = ['(* GENERATED by translate/c17_formulas.py from src/srctools/{math,vmf,instancing}.py. Do not edit. *)',
             'From Coq Require Import Reals ZArith NArith List String.',
-            'From SV Require Import Rot.C17Base SM.C17Name SM.C17Subst SM.C17Sites SM.C17Frame SM.C17Global SM.C17Cache SM.C17Kinds.',
+            'From SV Require Import Rot.C17Base SM.C17Name SM.C17Subst SM.C17Sites SM.C17Frame SM.C17Global SM.C17Cache SM.C17Kinds SM.C17AutoNames.',
             'Import ListNotations.', 'Open Scope string_scope.', 'Open Scope R_scope.', '']
     side['defs'] = sorted(E.defs)
     _LAST.clear()
